@@ -247,6 +247,26 @@ def unwind_hook_check():
     return n_sites, missing
 
 
+def limit_hook_check():
+    """H5 cross-check (DESIGN 10.7): every counter-limit `panic!("Too many references ...")` site of the crate is
+    immediately preceded by an H5 hook, so the `*_at_max_unwinds_leaving_everything` contracts really run the
+    unwind out of that site.  Returns (number of sites, list of unhooked sites)."""
+    missing = []
+    n = 0
+    for rel in ("src/cc.rs", "src/weak/mod.rs"):
+        path = os.path.join(REPO(), rel)
+        if not os.path.exists(path):
+            continue
+        lines = open(path).read().splitlines()
+        for i, line in enumerate(lines):
+            if 'panic!("Too many references' not in line:
+                continue
+            n += 1
+            if i == 0 or "verification hook (H5)" not in lines[i - 1]:
+                missing.append("%s:%d: %s" % (rel, i + 1, line.strip()[:80]))
+    return n, missing
+
+
 def scan_assumptions(files):
     """Mechanical scan: every kani::assume / stub / should_panic in the proof files used."""
     out = []
@@ -367,6 +387,10 @@ def main(a):
         n_sites, missing = unwind_hook_check()
         if missing:
             lost += ["call site that can run user code without an unwind hook (A-UNWIND incomplete): " + m for m in missing]
+    if pid == "C16":
+        n_lim, missing = limit_hook_check()
+        if missing or n_lim < 4:
+            lost += ["counter-limit panic site without an H5 hook (%d sites found): %s" % (n_lim, "; ".join(missing))]
     if lost:
         print("UNDECIDED property=%s lost anchors: %s" % (pid, "; ".join(lost)))
         return 2
